@@ -28,7 +28,9 @@ def gen_args(rng, f, malformed_rate=0.15):
             dims = rng.sample([1, 2, 3, 4, 5, 6, 7], 3)
             vals[p] = tuple(dims)
             rows, cols, slices = dims
-    if f['name'] in ('resize', '_resize', 'scale', 'Resize_apply', 'Resize_apply_to_mask', 'RandomScale_apply', 'RandomScale_apply_to_mask'):
+    if f['name'] in ('resize', '_resize', 'scale', 'Resize_apply', 'Resize_apply_to_mask', 'RandomScale_apply', 'RandomScale_apply_to_mask',
+                     'longest_max_size', 'smallest_max_size', 'LongestMaxSize_apply', 'LongestMaxSize_apply_to_mask',
+                     'SmallestMaxSize_apply', 'SmallestMaxSize_apply_to_mask'):
         # SciPy zoom: voxel-exact comparison is possible for order 0 only; keep the rendered volumes small
         for p, t in params:
             if p == 'interpolation':
@@ -39,6 +41,10 @@ def gen_args(rng, f, malformed_rate=0.15):
                 vals[p] = (rng.randint(1, 11), rng.randint(1, 11), rng.randint(1, 11))
             elif p == 'scale':
                 vals[p] = Fr(rng.randint(2, 20), 8)
+            elif p == 'max_size':
+                dims = next((vals[q] for q, tq in params if tq == 'arr' and q in vals), (4, 4, 4))
+                top = 12 if 'ongest' in f['name'] else min(12, 2 * min(dims) + 1)     # keep the rendered result small
+                vals[p] = rng.randint(1, top)
     for p, t in params:
         if p in vals:
             continue
